@@ -619,3 +619,135 @@ Fixpoint pv_run (p : pv) (tr : list ev) : option pv :=
   end.
 Definition prop_violb (tr : list ev) : bool :=
   match pv_run pv_init tr with Some _ => false | None => true end.
+
+(* ====================================================================================== *)
+(* 6. The whole session: cluster worker x one pool per node.                               *)
+(*    Session::use_keyspace -> ClusterWorker (use_keyspace_channel arm: used_keyspace,      *)
+(*    snapshot of the node set, spawned fan-out task) -> Node::use_keyspace ->              *)
+(*    NodeConnectionPool::use_keyspace (request channel of that pool's refiller) -> the     *)
+(*    pool model of section 2; join_all + use_keyspace_result on the way back.              *)
+(*    Node objects (and their pools) are indexed by a number that is never reused.          *)
+(* ====================================================================================== *)
+
+(* what the fan-out task knows about one target node: request not yet handed to the pool's
+   refiller | handed over, it became pool-level use [u] there | the pool answered *)
+Inductive fstatus := FWait | FSent (u : nat) | FAns (a : panswer).
+
+(* the task spawned by the use_keyspace_channel arm *)
+Record fan := mkFan { fid : nat; fks : ks; ftargets : list nat; fstat : nat -> fstatus }.
+
+Record sys := mkSys {
+  sused : option ks;                 (* node_config.used_keyspace *)
+  snodes : list nat;                 (* known_nodes of the published ClusterState *)
+  snnext : nat;
+  spool : nat -> pool;               (* the pool of every node object ever created *)
+  sfans : list fan;                  (* fan-out tasks that have not answered the caller *)
+  sfnext : nat;
+  slog : list (nat * bool)           (* what Session::use_keyspace returned: (call, is Ok) *)
+}.
+Definition yinit (n0 : nat) : sys :=
+  mkSys None (seq 0 n0) n0 (fun _ => init None) [] 0 [].
+
+Inductive ylabel :=
+| YUse (raw : name) (cs : bool)          (* Session::use_keyspace: validation, worker arm *)
+| YDeliver (f n : nat)                   (* the request of call f reaches the refiller of node n *)
+| YPool (n : nat) (l : label)            (* any other step of node n's pool / its connections *)
+| YApply (keep : list nat) (nnew : nat)  (* metadata application: surviving + newly created nodes *)
+| YReturn (f : nat) (ok : bool)          (* join_all over the nodes finished; the caller is answered *)
+| YPick (n c : nat).                     (* a request picks node n (of the current state), connection c *)
+
+Definition is_wait (x : fstatus) : bool := match x with FWait => true | _ => false end.
+Definition is_ans (x : fstatus) : bool := match x with FAns _ => true | _ => false end.
+Definition fsent_is (u : nat) (x : fstatus) : bool :=
+  match x with FSent u' => Nat.eqb u u' | _ => false end.
+Definition set_fstat (g : fan) (n : nat) (v : fstatus) : fan :=
+  mkFan (fid g) (fks g) (ftargets g) (upd (fstat g) n v).
+Definition deliverable (f n : nat) (g : fan) : bool :=
+  Nat.eqb (fid g) f && mem n (ftargets g) && is_wait (fstat g n).
+Definition all_answered (g : fan) : bool := forallb (fun n => is_ans (fstat g n)) (ftargets g).
+(* Node::use_keyspace hands the pool's answer through unchanged *)
+Definition node_outcome (x : fstatus) : cres :=
+  match x with FAns PAOk => COk | FAns PABroken => CBroken 0 | _ => CErr 0 end.
+Definition fan_ok (g : fan) : bool :=
+  match use_keyspace_result (map (fun n => node_outcome (fstat g n)) (ftargets g)) with
+  | AOk => true | _ => false
+  end.
+(* the pool-level answer a step produces, if any *)
+Definition answered_by (l : label) : option (nat * panswer) :=
+  match l with
+  | UseDone u a => Some (u, a)
+  | UseTimeout u => Some (u, PAErr)
+  | _ => None
+  end.
+
+Definition ystep (s : sys) (l : ylabel) : option sys :=
+  match l with
+  | YUse raw cs =>
+      match make_verified raw cs with
+      | Err _ => Some s
+      | Ok k =>
+          Some (mkSys (Some k) (snodes s) (snnext s) (spool s)
+                      (sfans s ++ [mkFan (sfnext s) k (snodes s) (fun _ => FWait)])
+                      (S (sfnext s)) (slog s))
+      end
+  | YDeliver f n =>
+      match find (deliverable f n) (sfans s) with
+      | None => None
+      | Some g =>
+          match make_verified (fst (fks g)) (snd (fks g)) with
+          | Err _ => None
+          | Ok _ =>
+              match step (spool s n) (UseKeyspace (fst (fks g)) (snd (fks g))) with
+              | None => None
+              | Some p' =>
+                  let u := unext (spool s n) in
+                  Some (mkSys (sused s) (snodes s) (snnext s) (upd (spool s) n p')
+                              (map (fun h => if deliverable f n h then set_fstat h n (FSent u) else h) (sfans s))
+                              (sfnext s) (slog s))
+              end
+          end
+      end
+  | YPool n l =>
+      if is_use l then None
+      else match step (spool s n) l with
+           | None => None
+           | Some p' =>
+               let fans' := match answered_by l with
+                            | Some (u, a) =>
+                                map (fun h => if fsent_is u (fstat h n) then set_fstat h n (FAns a) else h) (sfans s)
+                            | None => sfans s
+                            end in
+               Some (mkSys (sused s) (snodes s) (snnext s) (upd (spool s) n p') fans' (sfnext s) (slog s))
+           end
+  | YApply keep nnew =>
+      let fresh := seq (snnext s) nnew in
+      Some (mkSys (sused s) (filter (fun n => mem n keep) (snodes s) ++ fresh) (snnext s + nnew)%nat
+                  (fun n => if mem n fresh then init (sused s) else spool s n)
+                  (sfans s) (sfnext s) (slog s))
+  | YReturn f ok =>
+      match find (fun g => Nat.eqb (fid g) f && all_answered g) (sfans s) with
+      | None => None
+      | Some g =>
+          match ftargets g with
+          | [] => None                     (* use_keyspace_result on an empty iterator panics *)
+          | _ =>
+              if Bool.eqb ok (fan_ok g)
+              then Some (mkSys (sused s) (snodes s) (snnext s) (spool s)
+                               (filter (fun h => negb (Nat.eqb (fid h) f && all_answered h)) (sfans s))
+                               (sfnext s) (slog s ++ [(f, ok)]))
+              else None
+          end
+      end
+  | YPick n c =>
+      if mem n (snodes s) then
+        match ph (spool s n) c with InPool => Some s | _ => None end
+      else None
+  end.
+
+Fixpoint yrun (s : sys) (ls : list ylabel) : option sys :=
+  match ls with
+  | [] => Some s
+  | l :: r => match ystep s l with Some s' => yrun s' r | None => None end
+  end.
+Definition is_yuse (l : ylabel) : bool := match l with YUse _ _ => true | _ => false end.
+Definition no_yuse (ls : list ylabel) : bool := forallb (fun l => negb (is_yuse l)) ls.
